@@ -726,8 +726,8 @@ pub fn run(ctx: &Ctx) {
     ctx.assume("ranges are compared as normalised rectangles (the engine evaluates `B3:C2` as `B2:C3`)");
     let restricted = restricted_from(ctx);
     let (cases, len) = match ctx.tier {
-        Tier::Quick => (12000, 8),
-        Tier::Thorough => (300000, 20),
+        Tier::Quick => (60000, 8),
+        Tier::Thorough => (1200000, 20),
     };
     let enc = |c: &Case| serde_json::to_value(c).unwrap_or(Value::Null);
     ctx.campaign("histories", cases, || case_strategy(len, Flavor::Main, restricted.clone()), check, enc);
